@@ -103,6 +103,10 @@ fn main() {
                 }
             };
             for pos in positions {
+                if replay.is_none() && t0.elapsed().as_secs() >= budget_s {
+                    report.note(format!("time budget reached inside size {} (limit {})", size, limit));
+                    break 'sizes;
+                }
                 let v6 = meta.chance(1, 3);
                 let via_numwant = meta.chance(1, 2) && limit > 0;
                 let (max_peers, numwant) = if via_numwant { (limit + 1 + meta.usize(4), Some(limit)) } else { (limit, *meta.pick(&[None, Some(0), Some(limit + 5), Some(usize::MAX)])) };
